@@ -154,7 +154,7 @@ def fixed_points(ctx):
 
 # ------------------------------------------------------------------------------------- generated grammars
 
-TERMINALS = ['"x"', '"\\n"', '"["', '"|"', '/a+/', '/[\\/]/', '/"/', '"("', '/a\\//', '/\\//', '"/"', '"\\times"', '"\\nx"']
+TERMINALS = ['"x"', '"\\n"', '"["', '"|"', '/a+/', '/[\\/]/', '/"/', '"("', '/a\\//', '/\\//', '"/"', '"\\times"', '"\\nx"', '"\'"', "/'/", '"it\'s"', "/a'b/"]
 
 
 def exprs(depth: int, symbols, terms_cache={}):
@@ -206,6 +206,14 @@ def grammars(quick: bool):
             for b in e3[:10]:
                 for c in e3[5:15]:
                     yield f'entry := {a}\nr2 := {b}\nr3[1] := {c}\n' + base_rule
+
+
+def terminal_grammars():
+    """Every terminal of the alphabet in every simple position (the nested enumeration only reaches the first dozen)."""
+    for t in TERMINALS:
+        for u in ('', '[1]'):
+            for rhs in (t, f'{t} t', f't {t}', f'({t})* t', f'[{t}] t', f't | {t}', f'({t} | t)+', f'{t} {t}'):
+                yield f'entry{u} := {rhs}\nt := "y"\n'
 
 
 def wide_grammars():
@@ -272,6 +280,19 @@ def malformed(text: str):
         yield ' '.join(toks[:i] + toks[i + 1:]).replace(' \n ', '\n').replace(' \n', '\n')
 
 
+def rendered_module_rules(text: str):
+    """rules_struct of the rules obtained by executing the module text gram_check renders for the grammar; or 'Error: ...'."""
+    from rogw.tranp.bin.gram_check import App, Args
+    try:
+        tree, _ = compile_text(text, shared=True)
+        rendered = App(Args(['-i', 'gen.lark', '-o', 'gen_rules.py'])).render_rules(tree)
+        ns: dict = {}
+        exec(compile(rendered, 'gen_rules.py', 'exec'), ns)
+        return rules_struct(ns['gen_rules']())
+    except Exception as e:  # noqa
+        return f'{type(e).__name__}: {str(e)[:160]}'
+
+
 def worker(batch):
     from rogw.tranp.errors import Errors
     out = []
@@ -320,6 +341,15 @@ def worker(batch):
                         re.compile(body)
                     except re.error as e:
                         bad = (body, str(e))
+            if not bad:
+                # the rule module gram_check writes for this grammar: executed, it must yield these very rules
+                mod = rendered_module_rules(text)
+                if isinstance(mod, str):
+                    out.append(('viol', (['rendered-module-broken', mod.split(':')[0]] + sorted({t[0] + ':' + ('quote' if "'" in t[1] and "\\'" not in t[1] else 'backslash' if '\\' in t[1] else 'newline') for t in got_t if "'" in t[1] or '\\' in t[1] or '\n' in t[1]})[:1], f'{text!r}: the rule module rendered for it does not execute: {mod}', {'grammar': text})))
+                    continue
+                if mod != s1:
+                    out.append(('viol', (['rendered-module-differs', shape_class(text)], f'{text!r}: the rule module rendered for it yields other rules', {'grammar': text})))
+                    continue
             if bad:
                 out.append(('viol', (['compiled-terminal-unusable'], f'{text!r}: compiled terminal {bad[0]!r} is not a regular expression: {bad[1]}', {'grammar': text})))
             else:
@@ -392,7 +422,7 @@ def run(ctx):
     n_fixed += compiled_rules_equivalence(ctx, before)
     gs = []
     seen = set()
-    for g in itertools.chain(grammars(ctx.quick), wide_grammars()):
+    for g in itertools.chain(grammars(ctx.quick), wide_grammars(), terminal_grammars()):
         if g not in seen:
             seen.add(g)
             gs.append(g)
